@@ -21,6 +21,8 @@ func (f *faults) str(id string) (string, error) {
 	return "v" + id, nil
 }
 
+func (f *faults) plain(s string) string { return s }
+
 func (f *faults) err(id string) error {
 	if f.fail == id {
 		return errExpr
@@ -29,7 +31,7 @@ func (f *faults) err(id string) error {
 }
 
 // source lines of the failing expressions in c10.templ (first line, last line)
-var exprLines = map[string][2]int{"x1": {5, 5}, "x2": {6, 6}, "x3": {23, 23}, "x4": {12, 14}}
+var exprLines = map[string][2]int{"x1": {5, 5}, "x2": {6, 6}, "x3": {25, 25}, "x4": {12, 14}, "x6": {18, 18}, "x7": {18, 18}, "x8": {19, 19}}
 
 // faultWriter accepts failAt bytes in total, then fails in the chosen way.
 type faultWriter struct {
@@ -109,7 +111,7 @@ func VerifC10Faults() {
 		symAssume(w.failAt >= 0)
 		w.mode = symChoose(3)
 	case 1: // one expression / nested component / raw component errs
-		fail = []string{"x1", "x2", "x3", "x4", "x5"}[symChoose(5)]
+		fail = []string{"x1", "x2", "x3", "x4", "x5", "x6", "x7", "x8"}[symChoose(8)]
 	case 2: // context already cancelled
 		ctx = cancelledCtx{ctx}
 	case 3: // writer failure and expression error together
